@@ -802,7 +802,7 @@ func (h *History) wasmTightFee(b int) {
 			c.tx = nil
 		}
 	}
-	if r.Intn(4) != 0 || npoor >= 40 {
+	if r.Intn(6) != 0 || npoor >= 20 {
 		return
 	}
 	key := DetKey(w.Seed, 5000+npoor)
@@ -828,8 +828,8 @@ func (h *History) wasmTightFee(b int) {
 		name = fmt.Sprint("call:", gasOnTop)
 	} else {
 		code := []byte{byte(r.Intn(256)), byte(r.Intn(256)), byte(r.Intn(256))}
-		switch r.Intn(4) {
-		case 0:
+		switch r.Intn(8) {
+		case 0, 2:
 			code = nil
 			full, _ := testdata.IncFunc()
 			code = append(code, full[:len(full)/2]...) // a truncated module
